@@ -29,6 +29,7 @@ FIXREV = {
     "fixrev-clamp-bound-dtype": ("C20", ["C20"], "reverse of the fix: Python-number clamp bounds rounded through float32 on float64 inputs"),
     "fixrev-model-at-maturity": ("C14", ["C14"], "reverse of the fix: model evaluated at maturity in the all-steps branch (nan gradient through BlackScholes)"),
     "fixrev-negative-zero": ("C18", ["C18"], "reverse of the fix: time_to_maturity / volatility = -0.0 gives infinities of the wrong sign (negative European price at maturity)"),
+    "fixrev-setattr-shadow": ("C12", ["C12"], "reverse of the fix: derivative.<name> = primary leaves a plain attribute that shadows the registry and goes stale"),
     "fixrev-cir-zero-variance": ("C11", ["C11"], "reverse of the fix: generate_cir / CIRRate NaN when the step has no variance (sigma = 0)"),
 }
 EXTRA = {"C03-B-stale-prev-output": ["C03", "C16"], "C16-B-prev-output-not-rezeroed": ["C16", "C03"], "C04-A-es-ties-at-quantile": ["C04", "C05"],
